@@ -48,6 +48,19 @@ CHECKS = {
         "note": "Trusted: CPython ast, sympy, numpy C-order ravel, scipy.sparse dok semantics (=, +=, setdiag, *=). Symbolic rows assume "
         "N >= 3 per axis, N = 2 covered concretely for 1-2 axes. Not decided: accuracy of spsolve/lsmr beyond the residual test.",
     },
+    "C03": {
+        "level": "other",
+        "technique": "static: sibling comparison of extracted summaries (stencil tables, ghost-cell stores, dispatch order, effect summaries); call-site/definition signature rule; loop-carried-dependence rule for nb.prange",
+        "text": "Decides agreement of routes on what the code computes, for all inputs: scipy.ndimage kernels equal the numba kernels as "
+        "stencil tables (all Cartesian operators, 1-3 axes, all methods); interpreted and compiled ghost-cell setters perform the same "
+        "store (index and value) for every boundary class/side/axis and serve sides (high, low) and axes in the same order; the four "
+        "operator-application bodies (numpy, numba apply_op, both overload implementations) have the same effect summary and hand `args` "
+        "to the boundary conditions by keyword exactly once; every set_ghost_cells call site is compatible with the keyword-only `args`; "
+        "every nb.prange kernel is free of loop-carried dependences and uses the common parallel flag, hence is schedule independent. "
+        "The sparse-matrix route is decided by C18.",
+        "note": "Sibling agreement, not an independent oracle (C01/C02 supply that). Trusted: documented semantics of ndimage.correlate1d/"
+        "laplace, numba faithfully compiling Python, LLVM. Not decided: size of round-off differences between routes.",
+    },
 }
 
 NOT_APPLICABLE: dict[str, str] = {}
